@@ -60,6 +60,10 @@ func exprText(fset *token.FileSet, e ast.Expr) string {
 	return b.String()
 }
 
+func printerFprint(b *strings.Builder, fset *token.FileSet, n ast.Node) error {
+	return printer.Fprint(b, fset, n)
+}
+
 func leanStr(s string) string {
 	var b strings.Builder
 	b.WriteByte('"')
